@@ -4,21 +4,24 @@ import SamVerif.Lemmas.Backends
 -/
 namespace SamVerif.Backends
 
+section Generic
+variable {box : Int → Int}
+
 /-! ## 4. `Vec<int>`: both runtimes refine one abstract sequence -/
 
 /-- The WebAssembly vector `w` represents the TypeScript array `t`: same length, within capacity,
 and slot `i` holds the i31 box of element `i`. -/
-def Rel (t : List Int) (w : WVec) : Prop :=
+def Rel (box : Int → Int) (t : List Int) (w : WVec) : Prop :=
   w.len = t.length ∧ w.len ≤ w.data.length ∧
-    ∀ (i : Nat) (v : Int), t[i]? = some v → w.data[i]? = some (some (i31wrap v))
+    ∀ (i : Nat) (v : Int), t[i]? = some v → w.data[i]? = some (some (box v))
 
 /-- what the WebAssembly program observes when the TypeScript program observes `r` -/
-def expectW : VOp → VRes → VRes
-  | .pop, .val n => .val (i31wrap n)
-  | .get _, .val n => .val (i31wrap n)
+def expectW (box : Int → Int) : VOp → VRes → VRes
+  | .pop, .val n => .val (box n)
+  | .get _, .val n => .val (box n)
   | _, r => r
 
-theorem rel_empty : Rel [] WVec.empty := by
+theorem rel_empty : Rel box [] WVec.empty := by
   refine ⟨rfl, by simp [WVec.empty], ?_⟩
   intro i v h; simp at h
 
@@ -41,9 +44,9 @@ theorem wReserve_spec (w : WVec) (min : Nat) (h : w.len ≤ w.data.length) :
 
 /-- **One call**: related states stay related, the WebAssembly result is the i31 image of the
 TypeScript result, and a call fails on one side iff it fails on the other. -/
-theorem vec_step_sim (t : List Int) (w : WVec) (h : Rel t w) (op : VOp) :
-    (wasmVecStep w op).2 = expectW op (tsVecStep t op).2 ∧
-      ((∀ m, (tsVecStep t op).2 ≠ .fail m) → Rel (tsVecStep t op).1 (wasmVecStep w op).1) := by
+theorem vec_step_sim (t : List Int) (w : WVec) (h : Rel box t w) (op : VOp) :
+    (wasmVecStep box w op).2 = expectW box op (tsVecStep t op).2 ∧
+      ((∀ m, (tsVecStep t op).2 ≠ .fail m) → Rel box (tsVecStep t op).1 (wasmVecStep box w op).1) := by
   obtain ⟨hlen, hcap, hel⟩ := h
   cases op with
   | len => simp [wasmVecStep, tsVecStep, expectW, hlen]; exact ⟨hlen, hcap, hel⟩
@@ -83,7 +86,7 @@ theorem vec_step_sim (t : List Int) (w : WVec) (h : Rel t w) (op : VOp) :
         have : t.length - 1 < t.length := by omega
         simp [List.getElem?_eq_getElem this]
       have hslot := hel _ _ hlast
-      have hget : w.data.getD (w.len - 1) none = some (i31wrap (t.getD (t.length - 1) 0)) := by
+      have hget : w.data.getD (w.len - 1) none = some (box (t.getD (t.length - 1) 0)) := by
         rw [List.getD_eq_getElem?_getD, hlen, hslot]; rfl
       simp only [wasmVecStep, tsVecStep, h0, hw0, if_false, hget, expectW, true_and]
       intro _
@@ -105,7 +108,7 @@ theorem vec_step_sim (t : List Int) (w : WVec) (h : Rel t w) (op : VOp) :
       have hi : i.toNat < t.length := by omega
       have hx : t[i.toNat]? = some (t.getD i.toNat 0) := by
         rw [List.getD_eq_getElem?_getD]; simp [List.getElem?_eq_getElem hi]
-      have hget : w.data.getD i.toNat none = some (i31wrap (t.getD i.toNat 0)) := by
+      have hget : w.data.getD i.toNat none = some (box (t.getD i.toNat 0)) := by
         rw [List.getD_eq_getElem?_getD, hel _ _ hx]; rfl
       simp only [wasmVecStep, tsVecStep, hb, hb', if_false, hget, expectW, true_and]
       intro _; exact ⟨hlen, hcap, hel⟩
@@ -131,15 +134,15 @@ theorem vec_step_sim (t : List Int) (w : WVec) (h : Rel t w) (op : VOp) :
 
 /-- **Every call sequence**: the WebAssembly run is the i31 image of the TypeScript run — same
 number of results, failure at the same call. -/
-theorem vec_refines (ops : List VOp) (t : List Int) (w : WVec) (h : Rel t w) :
-    wasmVecRun w ops = List.zipWith expectW ops (tsVecRun t ops) := by
+theorem vec_refines (ops : List VOp) (t : List Int) (w : WVec) (h : Rel box t w) :
+    wasmVecRun box w ops = List.zipWith (expectW box) ops (tsVecRun t ops) := by
   induction ops generalizing t w with
   | nil => simp [wasmVecRun, tsVecRun]
   | cons op ops ih =>
     obtain ⟨hres, hrel⟩ := vec_step_sim t w h op
     simp only [wasmVecRun, tsVecRun]
     rcases hts : tsVecStep t op with ⟨t', rt⟩
-    rcases hws : wasmVecStep w op with ⟨w', rw⟩
+    rcases hws : wasmVecStep box w op with ⟨w', rw⟩
     rw [hts, hws] at hres
     rw [hts, hws] at hrel
     simp only at hres hrel
@@ -154,23 +157,25 @@ theorem vec_refines (ops : List VOp) (t : List Int) (w : WVec) (h : Rel t w) :
 
 /-- the run from the empty vector -/
 theorem vec_refines_empty (ops : List VOp) :
-    wasmVecRun WVec.empty ops = List.zipWith expectW ops (tsVecRun [] ops) :=
+    wasmVecRun box WVec.empty ops = List.zipWith (expectW box) ops (tsVecRun [] ops) :=
   vec_refines ops [] WVec.empty rel_empty
 
-example : wasmVecRun WVec.empty [.push 5, .push 7, .get 1, .pop, .len] =
+example : wasmVecRun i31wrap WVec.empty [.push 5, .push 7, .get 1, .pop, .len] =
     [.unit, .unit, .val 7, .val 7, .val 1] := by decide
 
 /- Full-strength statement (FALSE):
-   theorem vec_agree (ops) : wasmVecRun WVec.empty ops = tsVecRun [] ops                          -/
+   theorem vec_agree (ops) : wasmVecRun box WVec.empty ops = tsVecRun [] ops                          -/
+
+end Generic
 
 /-- a stored int outside 31 bits (C04-F5, open). Historical note: before fix 361669d a failing
 call was a second witness (`unreachable` trap vs panic with a message, C04-F6); the two runtimes
 now fail with the same message, see `vec_fail_coincide`. -/
 theorem vec_agree_counterexample :
-    wasmVecRun WVec.empty [.push 2000000000, .get 0] ≠ tsVecRun [] [.push 2000000000, .get 0] := by
+    wasmVecRun i31wrap WVec.empty [.push 2000000000, .get 0] ≠ tsVecRun [] [.push 2000000000, .get 0] := by
   decide
 
-example : wasmVecRun WVec.empty [.pop] = tsVecRun [] [.pop] := by decide
+example : wasmVecRun i31wrap WVec.empty [.pop] = tsVecRun [] [.pop] := by decide
 
 /-- all stored ints fit in 31 bits -/
 def SmallValues (ops : List VOp) : Prop :=
@@ -182,7 +187,7 @@ def SmallValues (ops : List VOp) : Prop :=
 theorem tsVecStep_small (t : List Int) (ht : ∀ x ∈ t, InI31 x) (op : VOp)
     (hop : match op with | .push v => InI31 v | .set _ v => InI31 v | _ => True) :
     (∀ x ∈ (tsVecStep t op).1, InI31 x) ∧
-      expectW op (tsVecStep t op).2 = (tsVecStep t op).2 := by
+      expectW i31wrap op (tsVecStep t op).2 = (tsVecStep t op).2 := by
   have hgetD : ∀ i, i < t.length → InI31 (t.getD i 0) := by
     intro i hi
     rw [List.getD_eq_getElem?_getD, List.getElem?_eq_getElem hi]
@@ -221,7 +226,7 @@ theorem tsVecStep_small (t : List Int) (ht : ∀ x ∈ t, InI31 x) (op : VOp)
 
 theorem vec_agree_aux (ops : List VOp) (t : List Int) (ht : ∀ x ∈ t, InI31 x)
     (hs : SmallValues ops) :
-    List.zipWith expectW ops (tsVecRun t ops) = tsVecRun t ops := by
+    List.zipWith (expectW i31wrap) ops (tsVecRun t ops) = tsVecRun t ops := by
   induction ops generalizing t with
   | nil => simp [tsVecRun]
   | cons op ops ih =>
@@ -241,11 +246,14 @@ before fix 361669d): if every stored int fits in 31 bits, a program observes exa
 results — including which call fails and with which message — from both `Vec` runtimes, for every
 call sequence. -/
 theorem vec_agree_partial (ops : List VOp) (hs : SmallValues ops) :
-    wasmVecRun WVec.empty ops = tsVecRun [] ops := by
+    wasmVecRun i31wrap WVec.empty ops = tsVecRun [] ops := by
   rw [vec_refines_empty, vec_agree_aux ops [] (by simp) hs]
 
 example : SmallValues [.push 5, .set 0 (-1073741824), .get 7] := by
   intro op hop; simp at hop; rcases hop with rfl | rfl | rfl <;> simp <;> decide
+
+section Generic2
+variable {box : Int → Int}
 
 theorem tsVecRun_length_le (ops : List VOp) (t : List Int) :
     (tsVecRun t ops).length ≤ ops.length := by
@@ -259,15 +267,15 @@ theorem tsVecRun_length_le (ops : List VOp) (t : List Int) :
     | unit => simp; exact ih t'
     | val n => simp; exact ih t'
 
-theorem expectW_fail_iff (op : VOp) (r : VRes) (m : String) : expectW op r = .fail m ↔ r = .fail m := by
+theorem expectW_fail_iff (op : VOp) (r : VRes) (m : String) : expectW box op r = .fail m ↔ r = .fail m := by
   cases op <;> cases r <;> simp [expectW]
 
 /-- **Failures coincide** (all element values): both runs produce the same number of results, and
 the WebAssembly run fails at call `k` with message `m` iff the TypeScript run does. -/
 theorem vec_fail_coincide (ops : List VOp) :
-    (wasmVecRun WVec.empty ops).length = (tsVecRun [] ops).length ∧
+    (wasmVecRun box WVec.empty ops).length = (tsVecRun [] ops).length ∧
       ∀ (k : Nat) (m : String), (tsVecRun [] ops)[k]? = some (VRes.fail m) ↔
-        (wasmVecRun WVec.empty ops)[k]? = some (VRes.fail m) := by
+        (wasmVecRun box WVec.empty ops)[k]? = some (VRes.fail m) := by
   rw [vec_refines_empty]
   have hle := tsVecRun_length_le ops []
   refine ⟨by simp [List.length_zipWith]; omega, fun k m => ?_⟩
@@ -283,33 +291,33 @@ theorem vec_fail_coincide (ops : List VOp) :
 
 /-! ## 4b. The remaining `Vec` builtins: `of`, `withCapacity`, `capacity`, `reserve`, `eq` -/
 
-theorem rel_of (v : Int) : Rel (tsVecOf v) (wasmVecOf v) := by
+theorem rel_of (v : Int) : Rel box (tsVecOf v) (wasmVecOf box v) := by
   refine ⟨rfl, by simp [wasmVecOf], ?_⟩
   intro i x hx
   cases i with
   | zero => simp [tsVecOf] at hx; subst hx; simp [wasmVecOf]
   | succ i => simp [tsVecOf] at hx
 
-theorem rel_withCapacity (n : Int) (w : WVec) (h : wasmVecWithCapacity n = some w) : Rel [] w := by
+theorem rel_withCapacity (n : Int) (w : WVec) (h : wasmVecWithCapacity n = some w) : Rel box [] w := by
   unfold wasmVecWithCapacity at h
   split at h
   · cases h
   · cases h; exact ⟨rfl, by simp, by intro i v hv; simp at hv⟩
 
 /-- `capacity` is only a hint, but on both sides it is never below the length. -/
-theorem capacity_ge_length (t : List Int) (w : WVec) (h : Rel t w) :
+theorem capacity_ge_length (t : List Int) (w : WVec) (h : Rel box t w) :
     t.length ≤ tsCapacity t ∧ t.length ≤ wasmCapacity w := by
   refine ⟨Nat.le_refl _, ?_⟩
   unfold wasmCapacity; rw [← h.1]; exact h.2.1
 
 /-- `reserve n` makes room for `n` elements on the WebAssembly side and changes nothing visible. -/
 theorem reserve_capacity (w : WVec) (n : Int) (h : w.len ≤ w.data.length) :
-    n ≤ wasmCapacity (wasmVecStep w (.reserve n)).1 := by
+    n ≤ wasmCapacity (wasmVecStep box w (.reserve n)).1 := by
   obtain ⟨_, r2, _, _⟩ := wReserve_spec w n.toNat h
   simp only [wasmVecStep, wasmCapacity]; omega
 
-theorem rel_take (t : List Int) (w : WVec) (h : Rel t w) :
-    w.data.take w.len = t.map (fun v => some (i31wrap v)) := by
+theorem rel_take (t : List Int) (w : WVec) (h : Rel box t w) :
+    w.data.take w.len = t.map (fun v => some (box v)) := by
   obtain ⟨hlen, hcap, hel⟩ := h
   apply List.ext_getElem?
   intro i
@@ -370,9 +378,9 @@ theorem tsVecEq_spec (same : Bool) (a b : List Int) (hs : same = true → a = b)
 
 /-- **`Vec.eq`, all arguments**: the WebAssembly answer on the representations equals the
 TypeScript answer on the i31 images of the two arrays. -/
-theorem vec_eq_refines (same : Bool) (ta tb : List Int) (wa wb : WVec) (ha : Rel ta wa)
-    (hb : Rel tb wb) :
-    wasmVecEq same wa wb = tsVecEq same (ta.map i31wrap) (tb.map i31wrap) := by
+theorem vec_eq_refines (same : Bool) (ta tb : List Int) (wa wb : WVec) (ha : Rel box ta wa)
+    (hb : Rel box tb wb) :
+    wasmVecEq same wa wb = tsVecEq same (ta.map box) (tb.map box) := by
   unfold wasmVecEq tsVecEq
   by_cases h1 : same = true
   · simp [h1]
@@ -388,12 +396,14 @@ theorem vec_eq_refines (same : Bool) (ta tb : List Int) (wa wb : WVec) (ha : Rel
       rw [ha.1, hl] at e1; rw [hb.1] at e2
       rw [h2, e1, e2]
       congr 1
-      have := map_some_eq_iff (ta.map i31wrap) (tb.map i31wrap)
+      have := map_some_eq_iff (ta.map box) (tb.map box)
       simp only [List.map_map] at this
-      have e : (fun v => some (i31wrap v)) = (some ∘ i31wrap : Int → Option Int) := rfl
+      have e : (fun v => some (box v)) = (some ∘ box : Int → Option Int) := rfl
       rw [e]
       simp [this]
     · simp [hl]
+
+end Generic2
 
 theorem map_i31wrap_id (t : List Int) (h : ∀ x ∈ t, InI31 x) : t.map i31wrap = t := by
   induction t with
@@ -406,20 +416,54 @@ theorem map_i31wrap_id (t : List Int) (h : ∀ x ∈ t, InI31 x) : t.map i31wrap
 
 /-- `[1073741824].eq([-1073741824])`: equal after i31 truncation, different in TypeScript. -/
 theorem vec_eq_agree_counterexample :
-    Rel [1073741824] (wasmVecOf 1073741824) ∧ Rel [-1073741824] (wasmVecOf (-1073741824)) ∧
-      wasmVecEq false (wasmVecOf 1073741824) (wasmVecOf (-1073741824)) ≠
+    Rel i31wrap [1073741824] (wasmVecOf i31wrap 1073741824) ∧ Rel i31wrap [-1073741824] (wasmVecOf i31wrap (-1073741824)) ∧
+      wasmVecEq false (wasmVecOf i31wrap 1073741824) (wasmVecOf i31wrap (-1073741824)) ≠
         tsVecEq false [1073741824] [-1073741824] := by
   refine ⟨rel_of _, rel_of _, by decide⟩
 
 /-- **`vec_eq_agree` (partial: 31-bit elements)**: for all pairs of vectors — equal, prefix,
 longer, shorter, empty — both runtimes give the same answer. -/
-theorem vec_eq_agree_partial (same : Bool) (ta tb : List Int) (wa wb : WVec) (ha : Rel ta wa)
-    (hb : Rel tb wb) (sa : ∀ x ∈ ta, InI31 x) (sb : ∀ x ∈ tb, InI31 x) :
+theorem vec_eq_agree_partial (same : Bool) (ta tb : List Int) (wa wb : WVec) (ha : Rel i31wrap ta wa)
+    (hb : Rel i31wrap tb wb) (sa : ∀ x ∈ ta, InI31 x) (sb : ∀ x ∈ tb, InI31 x) :
     wasmVecEq same wa wb = tsVecEq same ta tb := by
   rw [vec_eq_refines same ta tb wa wb ha hb, map_i31wrap_id ta sa, map_i31wrap_id tb sb]
 
 example : tsVecEq false [] [5] = 0 ∧ tsVecEq false [5] [5, 6] = 0 ∧ tsVecEq false [5, 6] [5, 6] = 1 := by
   decide
+
+/-! ## 4d. `Vec` of reference elements (`Vec<Str>`, `Vec<Vec<int>>`, `Vec<SomeClass>`)
+
+Elements are object identities (numbered by `Int`); nothing is boxed: `box = id`. The generic
+refinement theorems above (`vec_step_sim`, `vec_refines`, `vec_fail_coincide`, `vec_eq_refines` are
+stated for every `box`) then give agreement at full strength. -/
+
+theorem expectW_id (op : VOp) (r : VRes) : expectW id op r = r := by
+  cases op <;> cases r <;> rfl
+
+theorem zipWith_expectW_id (ops : List VOp) (rs : List VRes) (h : rs.length ≤ ops.length) :
+    List.zipWith (expectW id) ops rs = rs := by
+  induction ops generalizing rs with
+  | nil => cases rs with
+    | nil => rfl
+    | cons r rs => simp at h
+  | cons op ops ih => cases rs with
+    | nil => rfl
+    | cons r rs =>
+      simp only [List.zipWith_cons_cons, expectW_id]
+      rw [ih rs (by simpa using h)]
+
+/-- **`vec_agree` for reference elements, full strength**: every call sequence on a `Vec` whose
+elements are references is observed identically (results, failing call, message) on both back ends. -/
+theorem vec_agree_ref (ops : List VOp) : wasmVecRun id WVec.empty ops = tsVecRun [] ops := by
+  rw [vec_refines_empty (box := id), zipWith_expectW_id ops _ (tsVecRun_length_le ops [])]
+
+/-- **`Vec.eq` for reference elements, full strength**: element-wise identity on both sides. -/
+theorem vec_eq_agree_ref (same : Bool) (ta tb : List Int) (wa wb : WVec) (ha : Rel id ta wa)
+    (hb : Rel id tb wb) : wasmVecEq same wa wb = tsVecEq same ta tb := by
+  rw [vec_eq_refines same ta tb wa wb ha hb]; simp
+
+example : wasmVecRun id WVec.empty [.push 2000000000, .get 0, .pop, .pop] =
+    tsVecRun [] [.push 2000000000, .get 0, .pop, .pop] := vec_agree_ref _
 
 /-! ## 4c. `Str.concat` and string `==` -/
 
@@ -642,5 +686,61 @@ theorem toInt_fromInt (n : Int) (h : InRange n) :
   ⟨wasm_toInt_fromInt n h, ts_toInt_fromInt n h⟩
 
 example : wasmToInt (wasmFromInt (-120)) = some (-120) := by decide
+
+/-! ## 7. Identity comparisons of references (variant tests) -/
+
+/-- **`ref_eq_agree`** (full strength after fix d380f36; the statement is about the extracted flag
+`tsRefCmpStrict`, so reverting the emission to `==` breaks this proof): for all operand values —
+numbers/tags, structs, unboxed payloads, vectors, strings — the emitted TypeScript comparison and
+WebAssembly's `ref.eq` give the same answer. -/
+theorem ref_eq_agree (a b : JsV) (ha : IsRefVal a) (hb : IsRefVal b) :
+    tsRefEq a b = wasmRefEq (repOf a) (repOf b) := by
+  have hs : tsRefCmpStrict = true := rfl
+  unfold tsRefEq
+  rw [hs]
+  cases a <;> cases b <;> simp_all [IsRefVal, strictEq, wasmRefEq, repOf] <;>
+    (rw [Bool.eq_iff_iff]; simp)
+
+/-- Historical counterexample (C04-F8 / C18-F10, fixed): with loose equality an unboxed payload
+whose only field is the number 1 equals the tag printed as `1`: `[1] == 1`. -/
+theorem loose_eq_counterexample :
+    looseEq (.arr 7 [.num 1]) (.num 1) = true ∧ wasmRefEq (repOf (.arr 7 [.num 1])) (repOf (.num 1)) = false := by
+  decide
+
+/-- **Exactly where loose equality went wrong**: on operand values, `==` and `===` differ iff one
+side is a number and the other an array that coerces to that number. -/
+theorem loose_eq_iff (a b : JsV) (ha : IsRefVal a) (hb : IsRefVal b) :
+    looseEq a b ≠ strictEq a b ↔
+      (∃ n i es, ((a = .num n ∧ b = .arr i es) ∨ (a = .arr i es ∧ b = .num n)) ∧
+        primNum (.arr i es) = some n) := by
+  cases a with
+  | raw s => exact absurd ha (by simp [IsRefVal])
+  | num x =>
+    cases b with
+    | raw s => exact absurd hb (by simp [IsRefVal])
+    | num y => simp [looseEq, strictEq]
+    | arr j fs =>
+      simp only [looseEq, strictEq]
+      constructor
+      · intro h; exact ⟨x, j, fs, Or.inl ⟨rfl, rfl⟩, by simpa using h⟩
+      · rintro ⟨n, i, es, (⟨h1, h2⟩ | ⟨h1, _⟩), hp⟩
+        · cases h1; cases h2; simp [hp]
+        · cases h1
+  | arr i es =>
+    cases b with
+    | raw s => exact absurd hb (by simp [IsRefVal])
+    | arr j fs => simp [looseEq, strictEq]
+    | num y =>
+      simp only [looseEq, strictEq]
+      constructor
+      · intro h; exact ⟨y, i, es, Or.inr ⟨rfl, rfl⟩, by simpa using h⟩
+      · rintro ⟨n, i', es', (⟨h1, _⟩ | ⟨h1, h2⟩), hp⟩
+        · cases h1
+        · cases h1; cases h2; simp [hp]
+
+/-- a two-element array (every `_Str`, every struct with ≥ 2 fields) never coerces to a tag -/
+theorem loose_eq_safe_two (i : Nat) (e1 e2 : JsV) (es : List JsV) (n : Int) :
+    looseEq (.arr i (e1 :: e2 :: es)) (.num n) = false := by
+  simp [looseEq, primNum]
 
 end SamVerif.Backends
